@@ -101,3 +101,30 @@ def op_offset2line(c):
         return [0, int(offset2line(c["offset"], [tuple(p) for p in c["ls"]]))]
     except Exception as e:
         return errobs(e)
+
+
+def op_exc(c):
+    from xdis.bytecode import parse_exception_table
+    try:
+        es = parse_exception_table(bytes(c["tab"]))
+    except Exception as e:
+        return errobs(e)
+    out = [0, len(es)]
+    for e in es:
+        out += [int(e.start), int(e.end), int(e.target), int(e.depth), 1 if e.lasti else 0]
+    return out
+
+
+def op_exc_bytecode(c):
+    """exception entries as Bytecode exposes them for a 3.11+ portable code object"""
+    from xdis.bytecode import Bytecode
+    try:
+        code = _code311(1, [], c["tab"])
+        b = Bytecode(code, _opc(c["version"]))
+        es = b.exception_entries
+    except Exception as e:
+        return errobs(e)
+    out = [0, len(es)]
+    for e in es:
+        out += [int(e.start), int(e.end), int(e.target), int(e.depth), 1 if e.lasti else 0]
+    return out
